@@ -852,6 +852,7 @@ func (f *fnState) loopHead(l *loopInfo) {
 		f.oblige("INV-ENTRY", c.Label, fmt.Sprintf("loop %d: %s", l.ordinal, normSite(c.Text)), t)
 	}
 	f.structInvariants(l, "INV-ENTRY")
+	preNextref := f.get(f.cur, "G$nextref", sInt).T
 	// havoc (the discovery pass havocs everything and records what the body writes)
 	hav := l.modified
 	if f.discover {
@@ -897,6 +898,8 @@ func (f *fnState) loopHead(l *loopInfo) {
 	if l.modified["G$nextref"] {
 		// entry version is a lower bound
 		f.assume(fmt.Sprintf("(>= %s %s)", f.get(f.cur, "G$nextref", sInt).T, f.get(f.entry, "G$nextref", sInt).T))
+		// ... and everything allocated before the loop stays allocated
+		f.assume(fmt.Sprintf("(>= %s %s)", f.get(f.cur, "G$nextref", sInt).T, preNextref))
 	}
 	l.headEnv = f.cur.clone()
 	if f.fc != nil {
